@@ -302,12 +302,20 @@ class Result:
 
 
 def signature_matches(sig, fsig):
-    return all(sig.get(k) == v for k, v in fsig.items())
+    """every key of the finding's signature must agree; a list value means any-of"""
+    for k, v in fsig.items():
+        if isinstance(v, list):
+            if sig.get(k) not in v:
+                return False
+        elif sig.get(k) != v:
+            return False
+    return True
 
 
 def finish(res, level_extra=None):
     """known-finding filtering, evidence file, VIOLATION lines, exit code"""
-    findings = [f for f in load_findings() if f["property"] == res.pid and f.get("status") == "open"]
+    findings = [f for f in load_findings()
+                if res.pid in f.get("properties", [f["property"]]) and f.get("status") == "open"]
     unlisted = []
     seen_known = {}
     for v in res.violations:
